@@ -163,6 +163,8 @@ pub struct Obs {
     pub last_timestamp: u64,
     pub last_burnfee: u64,
     pub genesis_block_id: u64,
+    pub fork_id: Option<Hash>,
+    pub lowest_acceptable: (u64, Hash, u64),
     pub lc_index: Vec<(u64, Hash)>,
     pub blocks: Vec<(Hash, u64, bool, u8)>,
     pub ring: Vec<(usize, Vec<(u64, Hash)>, Option<usize>)>,
@@ -194,6 +196,12 @@ impl Obs {
         o.last_timestamp = bc.last_timestamp;
         o.last_burnfee = bc.last_burnfee;
         o.genesis_block_id = bc.genesis_block_id;
+        o.fork_id = bc.fork_id;
+        o.lowest_acceptable = (
+            bc.lowest_acceptable_block_id,
+            bc.lowest_acceptable_block_hash,
+            bc.lowest_acceptable_timestamp,
+        );
         let mut ids: BTreeSet<u64> = BTreeSet::new();
         for b in bc.blocks.values() {
             ids.insert(b.id);
@@ -283,6 +291,8 @@ impl Obs {
         cmp!(last_timestamp);
         cmp!(last_burnfee);
         cmp!(genesis_block_id);
+        cmp!(fork_id);
+        cmp!(lowest_acceptable);
         cmp!(lc_index);
         cmp!(blocks);
         cmp!(ring);
